@@ -79,7 +79,7 @@ let do_geometry id (f : string array) =
   if not (kenv_same e_m e_go) then
     fail id "CORR" "envelope" (trunc (Printf.sprintf "model=%s impl=%s geom=%s" (str_of_kenv e_m) (str_of_kenv e_go) f.(3)));
   (* the lattice classes are also run through the integer instance *)
-  let lattice = all_int gb in
+  let lattice = cls <> "longlattice" && cls <> "longfloat" && all_int gb in
   if lattice then begin
     count "int_instance";
     let gz = map_geom int_or_zero gb in
@@ -142,6 +142,10 @@ let do_geometry id (f : string array) =
   let flags = f.(7) in
   if flags.[0] = '1' then count "valid_geometry";
   if b01 (env_valid kO e_m) <> String.make 1 flags.[1] then fail id "CORR" "env_validate" (trunc f.(3));
+  (match gb with
+   | GLine (MkLine (_, vs)) when List.length vs >= 16 -> count (Printf.sprintf "long_line_len_mod8_%d" (List.length vs mod 8))
+   | GPoly (MkPoly (_, MkLine (_, vs) :: _)) when List.length vs >= 16 -> count (Printf.sprintf "long_ring_len_mod8_%d" (List.length vs mod 8))
+   | _ -> ());
   if (cls = "lattice" || cls = "float") && List.length pts > 3 then
     sample "G" (Printf.sprintf "class=%s Envelope=%s of %s" cls (str_of_kenv e_go) f.(3))
 
@@ -342,6 +346,105 @@ let do_union id (f : string array) =
       fail id "SPEC" "union_envelope_is_join" (trunc (Printf.sprintf "a=%s b=%s env(a)=%s env(b)=%s env(union)=%s" f.(2) f.(3) (str_of_zenv ea) (str_of_zenv eb) (str_of_zenv u)));
     count "union_checked"
 
+
+(* ---- F: every envelope method on float64 boxes of all magnitudes ----
+   judged by the float-key instance (comparisons only) and by exact dyadic arithmetic *)
+let do_float_box id (f : string array) =
+  let ka = kenv_of_str f.(2) and kb = kenv_of_str f.(3) in
+  let na = env_of_str n_of_hex f.(2) and nb = env_of_str n_of_hex f.(3) in
+  note_case ("F" ^ f.(2) ^ f.(3)) (ka <> None);
+  let sa = str_of_kenv ka and sb = str_of_kenv kb in
+  (* classification: model, and the statement itself - it follows the comparisons min = max *)
+  let flags = f.(4) in
+  let mflags = b01 (env_is_empty ka) ^ b01 (env_is_point kO ka) ^ b01 (env_is_line kO ka) ^ b01 (env_is_rectangle kO ka) ^ b01 (env_valid kO ka) in
+  if mflags <> flags then fail id "CORR" "classification_float" (Printf.sprintf "model=%s impl=%s env=%s" mflags flags sa);
+  let want = (match ka with
+      | None -> "1000"
+      | Some b ->
+        let ex = k_eq b.minx b.maxx and ey = k_eq b.miny b.maxy in
+        if ex && ey then "0100" else if ex || ey then "0010" else "0001") in
+  if String.sub flags 0 4 <> want then
+    fail id "SPEC" "classification_follows_comparisons" (Printf.sprintf "env=%s flags(empty,point,line,rect)=%s expected=%s" sa (String.sub flags 0 4) want);
+  count ("float_box_class_" ^ want);
+  (* AsGeometry / BoundingDiagonal *)
+  let kgeom s = map_geom key_of_bits (parse_dump s) in
+  let shape g =
+    let tag = (match g with GPoint _ -> "P" | GLine _ -> "L" | GPoly _ -> "Y" | GColl (_, []) -> "E" | _ -> "other") in
+    (tag, List.sort_uniq compare (List.map (fun v -> (v.vx, v.vy)) (geom_vs g))) in
+  let ag = kgeom f.(9) in
+  if shape ag <> shape (as_geometry kO ka) then fail id "CORR" "as_geometry_float" (Printf.sprintf "env=%s impl=%s" sa f.(9));
+  let tag_want = (match want with "1000" -> "E" | "0100" -> "P" | "0010" -> "L" | _ -> "Y") in
+  if fst (shape ag) <> tag_want then
+    fail id "SPEC" "as_geometry_type_follows_classification" (Printf.sprintf "env=%s expected type %s, AsGeometry=%s" sa tag_want (trunc f.(9)));
+  if not (kenv_same (env_of kO ag) ka) then fail id "SPEC" "as_geometry_envelope_float" (Printf.sprintf "env=%s AsGeometry=%s" sa (trunc f.(9)));
+  let bd = kgeom f.(10) in
+  if bd <> bounding_diagonal kO ka then fail id "CORR" "bounding_diagonal_float" (Printf.sprintf "env=%s impl=%s" sa f.(10));
+  if not (kenv_same (env_of kO bd) ka) then fail id "SPEC" "bounding_diagonal_envelope_float" (Printf.sprintf "env=%s diag=%s" sa f.(10));
+  (* Width / Height / Area / Center against exact arithmetic *)
+  let wb = n_of_hex f.(5) and hb = n_of_hex f.(6) and ab = n_of_hex f.(7) in
+  (match na with
+   | None ->
+     if f.(5) <> "0000000000000000" || f.(6) <> "0000000000000000" || f.(7) <> "0000000000000000" || f.(8) <> "E" then
+       fail id "SPEC" "empty_measures_float" (Printf.sprintf "w=%s h=%s area=%s center=%s" f.(5) f.(6) f.(7) f.(8))
+   | Some nbx ->
+     (match box_dy nbx with
+      | None -> count "float_box_not_finite"
+      | Some d ->
+        if not (width_close d wb) then fail id "SPEC" "width_float" (Printf.sprintf "env=%s width bits=%s" sa f.(5));
+        if not (height_close d hb) then fail id "SPEC" "height_float" (Printf.sprintf "env=%s height bits=%s" sa f.(6));
+        if not (area_close d ab) then fail id "SPEC" "area_float" (Printf.sprintf "env=%s area bits=%s" sa f.(7));
+        (match split_on ',' f.(8) with
+         | [hx; hy] ->
+           let okx = mid_close d.minx d.maxx (n_of_hex hx) and oky = mid_close d.miny d.maxy (n_of_hex hy) in
+           if not (okx && oky) then begin
+             let extreme = (not okx && mid_sum_overflows d.minx d.maxx) || (not oky && mid_sum_overflows d.miny d.maxy) in
+             fail id "SPEC" (if extreme then "center_float_extreme" else "center_float")
+               (Printf.sprintf "%senv=%s center=[%s %s]"
+                  (if extreme then "F41-class: min+max overflows float64 although the midpoint is representable: " else "")
+                  sa (str_of_key (key_of_hex hx)) (str_of_key (key_of_hex hy)))
+           end else if not (contains kO ka (key_of_hex hx, key_of_hex hy)) then
+             fail id "SPEC" "center_inside_float" (Printf.sprintf "env=%s center=%s" sa f.(8))
+         | _ -> fail id "SPEC" "center_float" ("empty point for a non-empty envelope " ^ sa))));
+  (* binary methods *)
+  let pf = f.(11) in
+  let inter = pf.[0] = '1' and cov = pf.[1] = '1' and dok = pf.[2] = '1' in
+  if intersects kO ka kb <> inter then fail id "CORR" "intersects_float" (Printf.sprintf "a=%s b=%s impl=%b" sa sb inter);
+  if covers kO ka kb <> cov then fail id "CORR" "covers_float" (Printf.sprintf "a=%s b=%s impl=%b" sa sb cov);
+  (match ka, kb with
+   | Some a, Some b ->
+     (* common point: the larger of the two lower corners, when it lies in both *)
+     let w = (fast_max kO a.minx b.minx, fast_max kO a.miny b.miny) in
+     if (contains kO ka w && contains kO kb w) <> inter then
+       fail id "SPEC" "intersects_common_point_float" (Printf.sprintf "a=%s b=%s impl=%b" sa sb inter);
+     let c2 = contains kO ka (b.minx, b.miny) && contains kO ka (b.maxx, b.maxy) in
+     if c2 <> cov then fail id "SPEC" "covers_subset_float" (Printf.sprintf "a=%s b=%s impl=%b" sa sb cov);
+     if f.(14) <> b01 (contains kO ka (b.minx, b.miny)) ^ b01 (contains kO ka (b.maxx, b.maxy)) then
+       fail id "CORR" "contains_float_box" (Printf.sprintf "a=%s b=%s impl=%s" sa sb f.(14))
+   | _ -> if inter || cov then fail id "SPEC" "empty_absorbing_float" (Printf.sprintf "a=%s b=%s flags=%s" sa sb pf));
+  let j = kenv_of_str f.(13) in
+  if not (kenv_same (join kO ka kb) j) then fail id "CORR" "join_float" (Printf.sprintf "a=%s b=%s impl=%s" sa sb (str_of_kenv j));
+  let corners = function None -> [] | Some b -> [(b.minx, b.miny); (b.maxx, b.maxy)] in
+  if not (tight_spec kO (corners ka @ corners kb) j) then fail id "SPEC" "join_smallest_cover_float" (Printf.sprintf "a=%s b=%s impl=%s" sa sb (str_of_kenv j));
+  (* Distance against the exact squared distance *)
+  (match na, nb with
+   | Some x, Some y ->
+     if not dok then fail id "SPEC" "distance_float" (Printf.sprintf "undefined for a=%s b=%s" sa sb)
+     else (match box_dy x, box_dy y with
+         | Some dx, Some dyb ->
+           let s2 = dist_sq_exact dx dyb in
+           if not (sqrt_close (Zpos (XO (XO XH))) s2 (n_of_hex f.(12))) then begin
+             let extreme = dist_squares_out_of_range dx dyb in
+             fail id "SPEC" (if extreme then "distance_float_extreme" else "distance_float")
+               (Printf.sprintf "%sa=%s b=%s distance=%s intersects=%b"
+                  (if extreme then "F40-class: dx*dx+dy*dy leaves the float64 range although the distance is representable: " else "")
+                  sa sb (str_of_key (key_of_hex f.(12))) inter)
+           end;
+           if dist_squares_out_of_range dx dyb then count "float_dist_squares_out_of_range"
+         | _ -> ())
+   | _ -> if dok then fail id "SPEC" "distance_float" (Printf.sprintf "defined for an empty operand a=%s b=%s" sa sb));
+  count "float_boxes";
+  if want = "0001" then sample "F" (Printf.sprintf "a=%s b=%s flags=%s intersects=%b covers=%b distance=%s" sa sb flags inter cov (str_of_key (key_of_hex f.(12))))
+
 let () =
   let path = Sys.argv.(1) in
   iter_lines path (fun line ->
@@ -358,6 +461,7 @@ let () =
         | "C" -> do_contains_float id f
         | "K" -> do_key id f
         | "Y" -> do_union id f
+        | "F" -> do_float_box id f
         | k -> fail id "CORR" "unknown_line_kind" k
       with
       | Bad m -> fail id "CORR" "unreadable_observation" m
